@@ -74,6 +74,12 @@ def step32 (st : St) (cmd : List String) (got : String) : Option (St × Verdict)
         some (mut32 st x got (fun s => BSet.remove s n) (fun s => bstr (BSet.mem s n) ++ " "))
       else some (skipV st got)
     | none => some (skipV st got)
+  | ["addstride", x, a, b, c] =>
+    match nat? a, nat? b, nat? c with
+    | some start, some step, some cnt =>
+      if cnt > 1048576 || step == 0 || (cnt > 0 && start + (cnt - 1) * step ≥ U32) then some (skipV st got)
+      else some (mut32 st x got (fun s => BSet.union s (ofVals ((List.range cnt).map fun i => start + i * step))))
+    | _, _, _ => some (skipV st got)
   | ["addmanyfrom", x, v, n] =>
     match nat? v, nat? n, st.bm[x]? with
     | some v, some n, some s =>
